@@ -32,10 +32,36 @@ from pyvc.vc import Unit
 
 MOD = "PyMatterSim.static.vector"
 
-NOT_DECIDED = []
+NOT_DECIDED = [
+    "vector_fft_corr (per-q time correlation of FFT / T_FFT / L_FFT over frames): not under contract — its pandas layer (DataFrame += DataFrame, "
+    "pd.concat, DataFrame.T, index assignment, integer column labels from np.arange) is outside the pandas model of pyvc, and it calls "
+    "vector_decomposition_sq once per frame; the statement's clauses about the split are decided on vector_decomposition_sq itself",
+    "S = S_L + S_T at the level of the rounded columns: conditional_sq rounds q0..q<d-1>, q, Sq and FFT to 8 decimals before the split, so "
+    "|qhat| = 1 and Sq = sum|FFT_c|^2 hold only up to 1e-8; proved instead, exactly and for every input: "
+    "|L|^2 + |T|^2 - |F|^2 = 2 (|qhat|^2 - 1) |qhat.F|^2 and qhat.T = (1 - |qhat|^2)(qhat.F), i.e. the Pythagorean identity and the "
+    "orthogonality hold whenever sum_c q_c^2 = q^2 (checked numerically to 1e-7 by the replay on the real pipeline)",
+    "the values of the transform columns themselves (FFT_c = N^-1/2 sum_i v_ic exp(-i q.r_i)) are conditional_sq's contract (C13), used here as "
+    "an arbitrary complex vector per wave vector",
+    "rows of the neighbour array for particles with zero neighbours (mean of an empty list is undefined) and a vanishing denominator of PQ / PR: "
+    "clauses are stated for CN_i >= 1 and for non-zero fields, as the statement's definitions presuppose",
+    "floating-point accuracy (A1) and the 8-decimal rounding function itself (uninterpreted, monotone, |x - round8 x| <= 5e-9)",
+]
 TRUSTED = [
-    "induction rule over the upper limit of a Σ-term: from the proved obligations `ind:<name>:base` (P(0)) and `ind:<name>:step` "
-    "(k >= 0 and P(k) imply P(k+1), k a fresh integer) the instance P(n) for the symbolic n >= 0 of the clause is used as an assumption / rewrite",
+    "induction rule over the upper limit of a Σ-term: from the proved obligations `ind:<name>:base` (P(0, 0..)) and `ind:<name>:step` "
+    "(for fresh kappa >= 0 and fresh S_j: P(kappa, S) implies P(kappa+1, S + f(k))) the instance P(n, Σ_{i<n} f(i)) for the symbolic n >= 0 of "
+    "the clause is used as an assumption / rewrite rule",
+    "callee contract of read_neighbors for neighbour-list files (C05 hand-off contract, DESIGN Part II): integer array (N, 1+M), row i = "
+    "[cn_i, ids-1 ..., 0 padding], 0 <= cn_i <= M <= Nmax, ids in [0, N); represented as clamped uninterpreted entries",
+    "callee contract of remove_pbc (proved by contracts/C02.py): requires det H != 0 and ppp in {0,1}^d, returns per row the minimum image "
+    "MINIMAGE(row, H, ppp) = C02.pbc_spec_row, kept as an uninterpreted function of its arguments",
+    "callee contract of conditional_sq for a float vector field (C13): frame with columns q0.., q >= 0, Sq, FFT0.. (complex), Q rows; column "
+    "values arbitrary",
+    "assumed library contracts added for C15 (pyvc/libext/C15.py): np.cross for 2- and 3-vectors; open() returns an opaque handle consumed only "
+    "by the read_neighbors contract",
+    "pandas model (pyvc/pandas_model.py): DataFrame = record of columns; [[labels]] selection, .values is a read-only array (pandas 3), join by "
+    "position, round(8) = uninterpreted round8 per element (componentwise for complex), groupby(key).mean().reset_index() = one row per distinct "
+    "key with group means, to_csv = file-write event",
+    "ndarray.reshape(n, -1) of a length d*n column with symbolic n: row-major, missing dimension d",
 ]
 
 
@@ -1206,6 +1232,6 @@ def _replay_nb(qualname, case, clause, model, seed):
 UNITS = [ParticipationRatio(), LocalAlignment(), PhaseQuotient(), DivergenceCurl(), Vibrability(), VectorDecompositionSq()]
 
 MANIFEST = {
-    "text": "",
-    "note": "",
+    "text": "Six functions of PyMatterSim/static/vector.py, real ASTs, symbolic particle number N, coordination numbers CN_i, mode number K and wave-vector number Q, d in {2,3}, every clause at an arbitrary symbolic index: participation_ratio = (sum|e|^2)^2/(N sum|e|^4), in [1/N,1] for e != 0 (two Cauchy-Schwarz type facts proved by induction over N), invariant under e -> c e (second symbolic run of the real body); local_vector_alignment_i = mean over the neighbour list of e_i.e_j; phase_quotient = sum e_i.e_j / sum|e_i.e_j| and in [-1,1] (triangle inequality by two nested inductions); divergence_i / curl_i = neighbour averages of D_ij.(u_j-u_i) / D_ij x (u_j-u_i) with D the minimum image of remove_pbc (nested symbolic loops summarised and checked inductively), 2-D returns the divergence only; vibrability_i = sum_l |e_li|^2/omega_l^2 and the saved array is the returned one; vector_decomposition_sq: L_FFT = round8(qhat (qhat.F)), T_FFT = round8(F - L), Sq_L/Sq_T = round8(|L|^2/|T|^2), transform columns kept, L parallel to q, L + T = F, qhat.T = (1-|qhat|^2)(qhat.F), |L|^2+|T|^2-|F|^2 = 2(|qhat|^2-1)|qhat.F|^2 (so S = S_L + S_T whenever |qhat| = 1), averaged frame = group means over equal q, csv = averaged frame; no input array is written. On the unfixed repository vector_decomposition_sq raises for every input (in-place division of the read-only DataFrame.values array, pandas 3): exc-free fails with a failing replay; with design_notes/C15.fix-1.diff every obligation is proved.",
+    "note": "floats as reals (A1); callee contracts of read_neighbors (C05), remove_pbc (C02, proved there), conditional_sq (C13) used at the call sites; induction rule over the upper limit of Σ-terms; assumed np.cross/open/pandas contracts; vector_fft_corr is not under contract (pandas layer outside the model); the Pythagorean identity is exact only for |qhat| = 1, the 8-decimal rounding of the q columns by conditional_sq is not decided",
 }
